@@ -57,7 +57,9 @@ TAIL_FAMILIES = {
     'string': ([b'"', b'"abc', b"'", b'R"(', b'R"x(abc', b'L"', b'@"', b'"\\', b'a = "x" "'],
                ('string_', 'indent_align_string', 'sp_', 'align_')),
     'pp': ([b'#', b'#if', b'#if 1', b'#define', b'#define X \\', b'#include', b'#include <', b'#pragma', b'#endif', b'#else', b'#if 1\n#else',
-            b'#define X(a', b'# '],
+            b'#define X(a', b'# ', b'#if A\n{\n#else\n{ {\n#endif\n}\n', b'#if A\n{\n#else\n#endif\n}\n', b'#if A\n#elif B\n}\n#else\n{\n#endif\n',
+            b'#if A\nif (a) {\n#else\nif (b) { if (c) {\n#endif\n}\n', b'#ifdef A\nif (a) {\ng();\n}\n#else\nif (a) {\ng();\n#endif\nh();\n}\n',
+            b'#ifdef A\nif (a) {\n#else\nif (a) {\ng();\n}\n#endif\nh();\n}\n', b'#if A\n#elif B\nif (a) {\n#else\n#endif\n}\n'],
            ('pp_', 'nl_squeeze', 'nl_multi_line_define', 'nl_before_if_closing', 'nl_after_if', 'mod_add_long_ifdef', 'align_pp', 'align_nl_cont',
             'sp_pp', 'sp_macro', 'sp_before_nl_cont', 'indent_macro')),
     # statement fragments with nothing around them (the scans that walk back to an enclosing brace meet the start of the file)
@@ -217,6 +219,10 @@ def build_cases(ctx):
                     continue
                 for k, tail in enumerate(tails):
                     lang = ('D' if tail.startswith(b'/+') else ['C', 'CPP', 'CS', 'JAVA'][(k + len(o.name)) % 4])
+                    if fam == 'bare':
+                        # nothing in front: the fragment is the whole file
+                        fam_cases[fam].append((tail + b'\n', lang, 'opt:%s=%s' % (o.name, v)))
+                        continue
                     fam_cases[fam].append((prefix.get(lang, b'') + tail, lang, 'opt:%s=%s' % (o.name, v)))
                     if fam in ('comment', 'string'):
                         # the same ending after balanced code (the passes after brace matching are reached)
@@ -226,9 +232,9 @@ def build_cases(ctx):
         if quick and fam == 'bare':
             # in every run: the control-flow fragments under every newline option; the rest is sampled
             head = set(TAIL_FAMILIES['bare'][0][:8])
-            fixed_part = [c for c in lst if c[2].startswith('opt:nl_') and any(c[0].endswith(t) for t in head)]
+            fixed_part = [c for c in lst if c[2].startswith('opt:nl_') and c[0].rstrip(b'\n') in head]
             lst = fixed_part + sr.sample([c for c in lst if c not in set(fixed_part)], 500)
-        elif quick and fam != 'comment':
+        elif quick and fam not in ('comment', 'pp'):
             lst = sr.sample(lst, min(len(lst), 500))
         elif not quick and len(lst) > 20000:
             lst = sr.sample(lst, 20000)
@@ -312,6 +318,10 @@ def check(ctx):
             continue
         c = cases[cid]
         key = '%s|%s' % (v[0], locus or v[1])
+        if v[0] == 'hang' and c[3].startswith('opt:') and not locus.startswith('width-loop'):
+            # one option away from the defaults: the option belongs to the root cause (a pass-level locus alone would let a listed hang
+            # of the same pass absorb it)
+            key += '|' + c[3][4:].split('=')[0]
         ctx.violation(key, '%s: %s (case %s, lang %s, config %s, mode %s)\nstderr: %s\n%s' % (
             v[0], locus or v[1], cid, c[2], c[3], c[4], err, san),
             files={'input' + corpus.ext_for(c[2]): c[1], 'config.cfg': cfg_text(c[3])},
